@@ -92,6 +92,7 @@ type phaseReport struct {
 	Snap         *idleSnap                `json:"snap,omitempty"`
 	Note         string                   `json:"note,omitempty"`
 	WallMs       int64                    `json:"wall_ms"`
+	FedDoneMs    int64                    `json:"fed_done_ms,omitempty"`
 }
 
 func emit(p *phaseReport) {
@@ -121,8 +122,6 @@ type c14World struct {
 	led      *ledger
 	conns    []*fconn
 	sessions int
-	serial   atomic.Uint64
-	fedTotal atomic.Int64
 	stopFeed atomic.Bool
 	links    []router.Link
 	tParked  time.Time
@@ -162,7 +161,7 @@ func buildC14World(cfg childCfg) (*c14World, error) {
 			ID: id, LinkTo: lt,
 			Remote: addr.MustIAFrom(addr.ISD(1+i%3), addr.AS(0xff00_0000_0300+uint64(i))),
 			Owned:  i < 2 || rng.IntN(2) == 0, Sibling: 1 + rng.IntN(2),
-			BFD:    i == 0 || rng.IntN(2) == 0, MTU: 1400,
+			BFD: i == 0 || rng.IntN(2) == 0, MTU: 1400,
 		}
 		if i == nLinks-1 {
 			f.Owned = false
@@ -179,17 +178,17 @@ func buildC14World(cfg childCfg) (*c14World, error) {
 	op.mk = func(l, r netip.AddrPort) router.BatchConn {
 		c := &fconn{
 			id: len(w.conns), local: l, remote: r, led: led,
-			rngR:   rand.New(rand.NewPCG(cfg.Seed, uint64(cfg.Run)<<16|uint64(len(w.conns))<<1)),
-			rngW:   rand.New(rand.NewPCG(cfg.Seed, uint64(cfg.Run)<<16|uint64(len(w.conns))<<1|1)),
-			serial: &w.serial, fedTotal: &w.fedTotal, stopFeed: &w.stopFeed,
-			closed: make(chan struct{}), faults: true, pauses: true,
+			rngR:     rand.New(rand.NewPCG(cfg.Seed, uint64(cfg.Run)<<16|uint64(len(w.conns))<<1)),
+			rngW:     rand.New(rand.NewPCG(cfg.Seed, uint64(cfg.Run)<<16|uint64(len(w.conns))<<1|1)),
+			stopFeed: &w.stopFeed,
+			closed:   make(chan struct{}), faults: true, pauses: true,
 		}
 		w.conns = append(w.conns, c)
 		return c
 	}
 	scfg := rfix.StarCfg{
 		IA:         addr.MustIAFrom(addr.ISD(1+rng.IntN(3)), addr.AS(0xff00_0000_0100+uint64(rng.IntN(200)))),
-		HopKey:     rfix.DeriveHopKey(key),
+		HopKey:     key, // already-derived hop key (what Connector.SetKey receives)
 		Ifs:        ifs,
 		ReuseLocal: reuse,
 		SCMPAuth:   rng.IntN(4) == 0,
@@ -425,6 +424,14 @@ func (w *c14World) connReports() []connReport {
 	return out
 }
 
+func (w *c14World) fedTotal() int64 {
+	var n int64
+	for _, c := range w.conns {
+		n += c.st.Fed.Load()
+	}
+	return n
+}
+
 func (w *c14World) drops() router.VerifLinkCounters {
 	var t router.VerifLinkCounters
 	for _, l := range w.links {
@@ -498,13 +505,15 @@ func (w *c14World) bfdCalm(max time.Duration) bool {
 		ok := true
 		now := time.Now().UnixNano()
 		for _, c := range w.conns {
-			last, prev := c.lastBFD.Load(), c.prevBFD.Load()
-			if last == 0 {
-				continue
+			c.bfdMu.Lock()
+			for _, t := range c.bfdSeen {
+				// on the slow (Down) schedule the period is 0.75-1 s: the next
+				// transmission is at least 750 ms after the last one
+				if t.prev == 0 || t.last-t.prev < int64(700*time.Millisecond) || now-t.last > int64(550*time.Millisecond) {
+					ok = false
+				}
 			}
-			if prev == 0 || last-prev < int64(600*time.Millisecond) || now-last > int64(350*time.Millisecond) {
-				ok = false
-			}
+			c.bfdMu.Unlock()
 		}
 		if ok {
 			return true
@@ -512,7 +521,7 @@ func (w *c14World) bfdCalm(max time.Duration) bool {
 		if time.Now().After(deadline) {
 			return false
 		}
-		time.Sleep(5 * time.Millisecond)
+		time.Sleep(3 * time.Millisecond)
 	}
 }
 
@@ -553,7 +562,7 @@ func c14Child(cfg childCfg) {
 		os.Exit(0)
 	}
 	c14LedgerCheck(w, rep, sum, fill, false)
-	rep.Note += fmt.Sprintf(" fed_done_ms=%d", w.tParked.Sub(t0).Milliseconds())
+	rep.FedDoneMs = w.tParked.Sub(t0).Milliseconds()
 	rep.RaceLogSize = raceLogSize(cfg.RaceLog)
 	rep.WallMs = time.Since(t0).Milliseconds()
 	emit(rep)
@@ -648,11 +657,11 @@ func c14ShutdownUnderLoad(w *c14World, t0 time.Time) {
 	rng := rand.New(rand.NewPCG(w.cfg.Seed, uint64(w.cfg.Run)<<8|0xaa))
 	trigger := int64(w.cfg.Packets/10 + rng.IntN(w.cfg.Packets))
 	deadline := time.Now().Add(60 * time.Second)
-	for w.fedTotal.Load() < trigger && time.Now().Before(deadline) {
+	for w.fedTotal() < trigger && time.Now().Before(deadline) {
 		time.Sleep(200 * time.Microsecond)
 	}
 	rep := &phaseReport{Phase: "shutdown-under-load"}
-	if w.fedTotal.Load() < trigger {
+	if w.fedTotal() < trigger {
 		rep.Inconclusive = "load-watchdog"
 		emit(rep)
 		os.Exit(0)
